@@ -27,7 +27,7 @@ const BAD: &[(&str, usize, bool)] = &[
 
 /// statements that are fine and leave an active region at 0x100 with one byte in it
 const GOOD: &[&str] = &["NOP;", ".du8 1;", "lbl_{n}:", ".dstr \"x;y\";", "MOVS R0, 1;", ".const k_{n}, 3;", ".align 1;", "/* not a statement; */"];
-const SEPS: &[&str] = &[" ", "\n", "\t", "\r\n", "\n\n", "  \t ", " // c\n", " /* \u{e9}\u{20ac} */ ", "/* a\n b */", "\n/*\n/* n */\n*/\t", " //\u{1F600}\n\t", " /* \u{BF}\u{FF}\u{FFFD} */ ", "/* \u{80}\u{7FF}\u{800}\u{10FFFF} */"];
+const SEPS: &[&str] = &[" ", "\n", "\t", "\r\n", "\r", "\n\r", " \r ", "\n\n", "  \t ", " // c\n", " /* \u{e9}\u{20ac} */ ", "/* a\n b */", "\n/*\n/* n */\n*/\t", " //\u{1F600}\n\t", " /* \u{BF}\u{FF}\u{FFFD} */ ", "/* \u{80}\u{7FF}\u{800}\u{10FFFF} */"];
 
 fn pos_of(text: &str, off: usize) -> (u32, u32)
 {
@@ -94,11 +94,58 @@ fn check(cx: &mut Cx, text: &str, off: usize, dir: &std::path::Path)
 	check_files(cx, &[("main.asm".to_owned(), text.to_owned())], &[("main.asm".to_owned(), off)], dir);
 }
 
+/// an include through a SYMLINKED directory (`symlink <k>`): `link/../lib/util.asm` is, for the operating system, the file next to the
+/// link's TARGET, not next to the link. Whatever name a diagnostic carries: that file must exist and must have the blamed statement
+/// at the line and column the diagnostic names.
+fn symlink_scenario(cx: &mut Cx, k: usize, dir: &std::path::Path)
+{
+	let input = format!("symlink {k}");
+	let _ = std::fs::remove_dir_all(dir);
+	std::fs::create_dir_all(dir.join("deep/real")).unwrap();
+	std::fs::create_dir_all(dir.join("deep/lib")).unwrap();
+	std::fs::create_dir_all(dir.join("lib")).unwrap();
+	if std::os::unix::fs::symlink(dir.join("deep/real"), dir.join("link")).is_err() {cx.report.notes.push("symbolic links cannot be created here: `symlink` scenario skipped".to_owned()); return;}
+	let bad = [".du8 256;", "MOVS R0, nope9;", ".du8 1, 2;", "B 0x40000001;"][k % 4];
+	// the file the operating system reaches, and a decoy where a lexical `dir/..` would look
+	let reached = format!("// reached\n\n\tNOP;\n  {bad}\nNOP;\n");
+	let decoy = format!("{bad}\n// decoy: the same statement elsewhere\nNOP;\nNOP;\nNOP;\n");
+	std::fs::write(dir.join("deep/lib/util.asm"), &reached).unwrap();
+	std::fs::write(dir.join("lib/util.asm"), &decoy).unwrap();
+	let inc = ["link/../lib/util.asm", "./link/../lib/util.asm", "link/./../lib/util.asm", "deep/real/../lib/util.asm"][k / 4 % 4];
+	std::fs::write(dir.join("main.asm"), format!(".addr 0x100;\n.du8 7;\n.include \"{inc}\";\n")).unwrap();
+	cx.report.hit("diagnostic inside a file included through a symbolic link");
+	match run_real(dir)
+	{
+		Err(p) => cx.report.oracle_fail(input, format!("panic: {p}")),
+		Ok(o) =>
+		{
+			cx.report.case(Some(&format!("symlink {k} {}", o.errors.len())));
+			if o.errors.is_empty() {cx.report.oracle_fail(input, "the ill-formed statement of the included file produced no diagnostic"); return;}
+			let mut blamed_bad = false;
+			for (file, line, col, kind) in &o.errors
+			{
+				let Ok(text) = std::fs::read_to_string(file) else {cx.report.oracle_fail(input.clone(), format!("diagnostic {kind} names {file}, which cannot be read")); return;};
+				let at: Option<&str> = text.split('\n').nth(*line as usize - 1).and_then(|l| l.char_indices().nth(*col as usize - 1).map(|(i, _)| &l[i..]));
+				let is_include = at.is_some_and(|a| a.starts_with(".include"));
+				let is_bad = at.is_some_and(|a| a.starts_with(bad));
+				if !is_include && !is_bad
+				{
+					cx.report.oracle_fail(input.clone(), format!("diagnostic {kind} names {file}:{line}:{col}; that file has {:?} there, the statement at fault is `{bad}`", at.map(|a| a.chars().take(30).collect::<String>())));
+					return;
+				}
+				blamed_bad |= is_bad;
+			}
+			if !blamed_bad {cx.report.oracle_fail(input, format!("no diagnostic names the statement `{bad}` of the included file: {:?}", o.errors));}
+		},
+	}
+}
+
 pub fn run(cx: &mut Cx)
 {
 	let dir = cx.work.join("diag");
 	if let Some(input) = cx.replay.clone()
 	{
+		if let Some(k) = input.strip_prefix("symlink ").and_then(|x| x.trim().parse::<usize>().ok()) {symlink_scenario(cx, k, &dir); return;}
 		if let Some(rest) = input.strip_prefix("diagp ")
 		{
 			if let Some((fs, bl)) = rest.split_once(" ; ")
@@ -113,6 +160,7 @@ pub fn run(cx: &mut Cx)
 	cx.report.rule.push_str(" | diagnostics: every ill-formed statement of a catalogue (register names, arity, kind, unknown, range, undefined, duplicate, hex, file, occupied, \
 before any .addr) placed after random well-formed statements and separators (tabs, CRLF, multi-byte characters in comments, nested and multi-line block comments); \
 every recorded diagnostic must name main.asm and the line/column of the statement's first token; also at columns and lines beyond 2^16");
+	for k in 0..16 {symlink_scenario(cx, k, &dir);}
 	let n = if cx.thorough() {60_000} else {6_000};
 	for i in 0..n
 	{
